@@ -256,3 +256,31 @@ Definition canon {V} (conv : V -> V) (f : fstate V) : fstate V :=
       (repeat (table_kind (f_ck f) (f_subk f)) (length (subs (f_mesh f))))
       (f_nvdim f) (f_vdims f) (f_unit f) (conv_dk (f_dk f))
       (conv_vals conv (f_dk f) (f_vals f)) (f_valid f).
+
+(* ---------- a decidable form of [wf_field] (evaluated on every in-domain correspondence case;
+   soundness: proofs/C10_hdf5.v, wf_fieldb_sound) ---------- *)
+Definition is_int (x : Q) : bool := Pos.eqb (Qden x) 1.
+Definition Qsame (a b : Q) : bool := Z.eqb (Qnum a) (Qnum b) && Pos.eqb (Qden a) (Qden b).
+
+Definition wf_cornersb (k : ckind) (lo hi : list Q) : bool :=
+  (length lo =? length hi)%nat && forallb2 Qltb lo hi &&
+  match k with KInt => forallb is_int lo && forallb is_int hi | KFloat => true end.
+
+Definition wf_subb (r : region) (k : ckind) (s : string * region) : bool :=
+  (length (pmin (snd s)) =? length (pmin r))%nat &&
+  wf_cornersb k (pmin (snd s)) (pmax (snd s)) &&
+  strlist_eqb (dims (snd s)) (dims r) && strlist_eqb (units (snd s)) (units r) &&
+  Qsame (tf (snd s)) (tf r).
+
+Definition wf_fieldb {V} (f : fstate V) : bool :=
+  let m := f_mesh f in let r := reg m in
+  wf_cornersb (f_ck f) (pmin r) (pmax r) && (0 <? length (pmin r))%nat &&
+  (length (dims r) =? length (pmin r))%nat && nodupb (dims r) &&
+  (length (units r) =? length (pmin r))%nat &&
+  (length (n m) =? length (pmin r))%nat && forallb (fun k => (0 <? k)%Z) (n m) &&
+  forallb2 (wf_subb r) (f_subk f) (subs m) &&
+  (1 <=? f_nvdim f)%Z &&
+  match f_vdims f with
+  | None => (f_nvdim f =? 1)%Z
+  | Some l => negb (length l =? 0)%nat && (Z.of_nat (length l) =? f_nvdim f)%Z && nodupb l
+  end.
